@@ -5,7 +5,7 @@ import numpy as np
 from scipy.linalg import expm
 warnings.simplefilter('ignore')
 from bioscrape.types import Model
-from bioscrape.simulator import py_simulate_model
+from bioscrape.simulator import py_simulate_model, ModelCSimInterface, SafeModelCSimInterface
 
 SPEC = json.loads(sys.argv[1]) if len(sys.argv) > 1 else {}
 
@@ -36,14 +36,21 @@ def main():
         x0 = np.array([rng.uniform(0, 5) for _ in names])
         M = Model(species=names, reactions=rxs, initial_condition_dict=dict(zip(names, x0)))
         T = np.linspace(0, 5, 26) if rng.random() < 0.5 else np.array([0.0] + sorted(rng.uniform(0, 5) for _ in range(8)))
-        res = py_simulate_model(T, Model=M, stochastic=False, return_dataframe=False).py_get_result()
+        reuse = it % 3 == 2
+        if reuse:      # one interface object reused for several deterministic simulations (prepared again each time)
+            itf = (SafeModelCSimInterface if rng.random() < 0.5 else ModelCSimInterface)(M)
+            for _ in range(rng.randint(1, 3)):
+                py_simulate_model(T, Interface=itf, stochastic=False, return_dataframe=False)
+            res = py_simulate_model(T, Interface=itf, stochastic=False, return_dataframe=False).py_get_result()
+        else:
+            res = py_simulate_model(T, Model=M, stochastic=False, return_dataframe=False).py_get_result()
         idx = M.get_species2index()
         n += 1
         for m, t in enumerate(T):
             want = expm(A * t) @ x0
             got = np.array([res[m, idx[s]] for s in names])
             if not np.allclose(got, want, rtol=1e-5, atol=1e-6):
-                return dict(reproduced=True, call='deterministic simulation of %r from %r at t=%r' % (rxs, x0.tolist(), float(t)), observed=got.tolist(), expected=want.tolist())
+                return dict(reproduced=True, call='deterministic simulation%s of %r from %r at t=%r' % (' (interface reused)' if reuse else '', rxs, x0.tolist(), float(t)), observed=got.tolist(), expected=want.tolist())
     return dict(reproduced=False, evaluations=n)
 
 
